@@ -5,7 +5,7 @@ STAGE=$1; LOG=$2; shift 2
 cd /verif
 for spec in "$@"; do
   IFS=: read prop var checks <<< "$spec"
-  patch=$STAGE/$prop/$var/patch.diff
+  patch=$STAGE/$prop/$var/patch.diff; [ -f $STAGE/$prop/$var/patch_ported.diff ] && patch=$STAGE/$prop/$var/patch_ported.diff
   echo "=== $prop/$var ($checks)" >> $LOG
   if ! git -C /repo apply --3way $patch >> $LOG 2>&1; then echo "APPLY-FAILED $prop/$var" >> $LOG; git -C /repo checkout -- . ; git -C /repo reset -q --hard HEAD; continue; fi
   git -C /repo reset -q   # unstage (3way stages)
